@@ -144,3 +144,154 @@ package geometry
 //@   loop 0 invariant Concave: concave == (hasNegCode(points,closed,i) && hasPosCode(points,closed,i))
 //@   loop 0 invariant Dir: !concave ==> ((dir == 0 && !hasNegCode(points,closed,i) && !hasPosCode(points,closed,i)) || (dir == 1 && hasPosCode(points,closed,i) && !hasNegCode(points,closed,i)) || (dir == -1 && hasNegCode(points,closed,i) && !hasPosCode(points,closed,i)))
 //@   loop 0 decreases len(points) - i
+
+// ---------------------------------------------------------------- C18 / C04: series model, segment rule, search protocol
+
+// abstract model of a *baseSeries (the property's segment rule: an open series of n points has n-1
+// segments; a closed one gets an implicit closing segment exactly when its last point differs from its first)
+//@ spec func bsNseg(s *baseSeries) int {
+//@     ite(s.closed, ite(len(s.points) < 3, 0, ite(s.points[len(s.points)-1] == s.points[0], len(s.points)-1, len(s.points))),
+//@                   ite(len(s.points) < 2, 0, len(s.points)-1)) }
+//@ spec func bsSeg(s *baseSeries, i int) Segment { mkSegment(s.points[i], ite(i == len(s.points)-1, s.points[0], s.points[i+1])) }
+//@ spec func segRect(g Segment) Rect { mkRect(mkPoint(min(g.A.X,g.B.X), min(g.A.Y,g.B.Y)), mkPoint(max(g.A.X,g.B.X), max(g.A.Y,g.B.Y))) }
+//@ spec func rectsMeet(a Rect, b Rect) bool { !(a.Min.Y > b.Max.Y || a.Max.Y < b.Min.Y || a.Min.X > b.Max.X || a.Max.X < b.Min.X) }
+//@ spec func rectPt(r Rect, i int) Point { ite(i == 1, mkPoint(r.Max.X, r.Min.Y), ite(i == 2, mkPoint(r.Max.X, r.Max.Y), ite(i == 3, mkPoint(r.Min.X, r.Max.Y), mkPoint(r.Min.X, r.Min.Y)))) }
+//@ spec func rectSeg(r Rect, i int) Segment { mkSegment(rectPt(r,i), rectPt(r,i+1)) }
+
+//@ func Segment.Rect
+//@   props C11 C04 C01
+//@   arith order
+//@   ensures result == segRect(seg)
+
+//@ func Rect.IntersectsRect
+//@   props C02 C04 C01
+//@   arith order
+//@   ensures result == rectsMeet(rect, other)
+
+//@ func baseSeries.NumPoints
+//@   props C18 C04
+//@   arith order
+//@   requires series != nil
+//@   ensures result == len(series.points)
+
+//@ func baseSeries.PointAt
+//@   props C18 C04
+//@   arith order
+//@   requires series != nil && 0 <= index && index < len(series.points)
+//@   ensures result == series.points[index]
+
+//@ func baseSeries.NumSegments
+//@   props C18 C04 C01
+//@   arith order
+//@   requires series != nil
+//@   ensures result == bsNseg(series)
+
+//@ func baseSeries.SegmentAt
+//@   props C18 C04 C01
+//@   arith order
+//@   requires series != nil && 0 <= index && index < len(series.points)
+//@   ensures result == bsSeg(series, index)
+
+//@ func Rect.NumPoints
+//@   props C18
+//@   arith order
+//@   ensures result == 5
+//@ func Rect.NumSegments
+//@   props C18 C04
+//@   arith order
+//@   ensures result == 4
+//@ func Rect.PointAt
+//@   props C18
+//@   arith order
+//@   requires 0 <= index && index <= 4
+//@   ensures result == rectPt(rect, index)
+//@ func Rect.SegmentAt
+//@   props C18 C04
+//@   arith order
+//@   requires 0 <= index && index < 4
+//@   ensures result == rectSeg(rect, index)
+
+// Search protocol (C04): exactly the segments whose bounding box meets the query rectangle, once each,
+// with their position index, nothing after the callback returned false.
+//@ func Rect.Search
+//@   props C04 C01
+//@   arith order
+//@   iter iter(idx) dom 0 <= idx && idx < 4 ; match rectsMeet(segRect(rectSeg(rect, idx)), target) ; args rectSeg(rect, idx), idx
+//@   loop 0 invariant 0 <= i && i <= 4 && idx == i && rectNumSegments == 4 && !stopped
+//@   loop 0 invariant forall j int :: seen[j] == (old(seen)[j] || (0 <= j && j < i && rectsMeet(segRect(rectSeg(rect, j)), target)))
+//@   loop 0 decreases 4 - i
+
+//@ spec func le32(d []byte, o int) int { d[o] + 256*d[o+1] + 65536*d[o+2] + 16777216*d[o+3] }
+// well-formedness of the compressed indexes (defined further below)
+//@ spec func RWFtop(d []byte, s *baseSeries) bool
+//@ spec func QWFtop(d []byte, s *baseSeries) bool
+//@ spec func indexBytesOK(s *baseSeries, d []byte) bool {
+//@     len(d) >= 5 && 5 <= le32(d,1) && le32(d,1) <= len(d) &&
+//@     (d[0] == 1 ==> RWFtop(slice(d, 0, le32(d,1)), s)) && (d[0] == 2 ==> QWFtop(slice(d, 0, le32(d,1)), s)) }
+//@ spec func IndexInv(s *baseSeries) bool { s.index == nil || (isBytes(s.index) && indexBytesOK(s, unboxBytes(s.index))) }
+
+//@ func rCompressSearch
+//@   props C04
+//@   arith order
+//@   trusted search side of the compressed R-tree not yet under contract
+//@   requires series != nil && addr == 5 && RWFtop(data, series)
+//@   iter iter(item) dom 0 <= item && item < bsNseg(series) ; match rectsMeet(segRect(bsSeg(series, item)), rect) ; args bsSeg(series, item), item
+//@   ensures result == !stopped
+
+//@ func qCompressSearch
+//@   props C04
+//@   arith order
+//@   trusted search side of the compressed quadtree not yet under contract
+//@   requires series != nil && addr == 5 && bounds == series.rect && QWFtop(data, series)
+//@   iter iter(item) dom 0 <= item && item < bsNseg(series) ; match rectsMeet(segRect(bsSeg(series, item)), rect) ; args bsSeg(series, item), item
+//@   ensures result == !stopped
+
+//@ func baseSeries.Search
+//@   props C04 C01
+//@   arith order
+//@   requires series != nil && IndexInv(series)
+//@   iter iter(idx) dom 0 <= idx && idx < bsNseg(series) ; match rectsMeet(segRect(bsSeg(series, idx)), rect) ; args bsSeg(series, idx), idx
+//@   loop 0 invariant 0 <= i && i <= n && n == bsNseg(series) && !stopped
+//@   loop 0 invariant forall j int :: seen[j] == (old(seen)[j] || (0 <= j && j < i && rectsMeet(segRect(bsSeg(series, j)), rect)))
+//@   loop 0 decreases n - i
+
+// ---------------------------------------------------------------- Series interface: abstract model over the closed set of implementers
+
+//@ spec func isBS(s Series) bool { s != nil && dyn(s) == typeid(*baseSeries) }
+//@ spec func isRectS(s Series) bool { s != nil && dyn(s) == typeid(Rect) }
+//@ spec func bsPt(s *baseSeries, i int) Point { s.points[i] }
+//@ spec func bsRectOf(s *baseSeries) Rect { s.rect }
+//@ spec func bsClosed(s *baseSeries) bool { s.closed }
+//@ spec func bsConvex(s *baseSeries) bool { s.convex }
+//@ spec func bsClockwise(s *baseSeries) bool { s.clockwise }
+//@ spec func bsNpts(s *baseSeries) int { len(s.points) }
+//@ spec func sNpts(s Series) int { ite(isBS(s), bsNpts(s), 5) }
+//@ spec func sPt(s Series, i int) Point { ite(isBS(s), bsPt(s,i), rectPt(unboxRect(s), i)) }
+//@ spec func sNseg(s Series) int { ite(isBS(s), bsNseg(s), 4) }
+//@ spec func sSeg(s Series, i int) Segment { ite(isBS(s), bsSeg(s,i), rectSeg(unboxRect(s), i)) }
+//@ spec func sRect(s Series) Rect { ite(isBS(s), bsRectOf(s), unboxRect(s)) }
+//@ spec func sClosed(s Series) bool { ite(isBS(s), bsClosed(s), true) }
+//@ spec func sConvex(s Series) bool { ite(isBS(s), bsConvex(s), true) }
+//@ spec func sClockwise(s Series) bool { ite(isBS(s), bsClockwise(s), false) }
+//@ spec func SeriesInv(s Series) bool { (isBS(s) && IndexInv(s)) || isRectS(s) }
+
+//@ func Series.NumPoints
+//@   props C18 C01
+//@   requires SeriesInv(self)
+//@   ensures result == sNpts(self)
+//@ func Series.PointAt
+//@   props C18 C01
+//@   requires SeriesInv(self) && 0 <= index && index < sNpts(self)
+//@   ensures result == sPt(self, index)
+//@ func Series.NumSegments
+//@   props C18 C01 C04
+//@   requires SeriesInv(self)
+//@   ensures result == sNseg(self)
+//@ func Series.SegmentAt
+//@   props C18 C01 C04
+//@   requires SeriesInv(self) && 0 <= index && index < sNseg(self)
+//@   ensures result == sSeg(self, index)
+//@ func Series.Search
+//@   props C04 C01
+//@   requires SeriesInv(self)
+//@   iter iter(idx) dom 0 <= idx && idx < sNseg(self) ; match rectsMeet(segRect(sSeg(self, idx)), rect) ; args sSeg(self, idx), idx
